@@ -895,7 +895,7 @@ func runC20(p *an.Prog, r *an.Run, tier string) {
 	for _, c := range an.Calls(serve, false) {
 		f := an.CallObj(c)
 		if f != nil && f.Pkg() != nil && f.Pkg().Path() == "time" && (f.Name() == "Tick" || f.Name() == "NewTicker" || f.Name() == "After" || f.Name() == "NewTimer") {
-			d := p.Derives(0, c.Common().Args[0])
+			d := p.Derives(2, c.Common().Args[0])
 			if d.HasFieldNamed("Agent", "UpdateInterval") {
 				okPeriod = true
 			}
